@@ -149,6 +149,7 @@ def run(ctx):
   from . import C03, C04
   C03.run_gate(ctx)
   C04.ds_step_threading(ctx)
+  C04.sharded_root_operands(ctx)   # ... also in sharded mode (roots of this step's statistics)
   C04.ds_guards(ctx)          # the roots applied are those of the last scheduled refresh: refresh guard is exactly count % interval == 0
   # "inverse 2k-th roots of the ridge-regularised statistics": the configured ridge / variant options reach the root routine
   from . import C01
